@@ -41,7 +41,8 @@ Section RoundTrip.
   Variable fields_of : string -> list fspec.
   Variable xmlname_of : string -> string.
   Variable cov : string -> fspec -> bool.
-  Variable elty : string -> option string.
+  (* owner type of the heterogeneous list, element name *)
+  Variable elty : string -> string -> option string.
 
   Definition strv (d : dt) : string := match d with DS s => s | _ => "" end.
 
@@ -109,10 +110,10 @@ Section RoundTrip.
       | [] => []
       | k :: r => if String.eqb (x_name k) n then rd ty k :: sel_named n ty r else sel_named n ty r
       end.
-    Fixpoint sel_any (ks : list xt) : list dt :=
+    Fixpoint sel_any (ty : string) (ks : list xt) : list dt :=
       match ks with
       | [] => []
-      | k :: r => match elty (x_name k) with Some c => rd c k :: sel_any r | None => sel_any r end
+      | k :: r => match elty ty (x_name k) with Some c => rd c k :: sel_any ty r | None => sel_any ty r end
       end.
     Definition r_field (ty : string) (attrs : list (string * string)) (text : string) (kids : list xt) (sp : fspec) : dt :=
       match f_kind sp, f_shape sp with
@@ -120,7 +121,7 @@ Section RoundTrip.
       | KChar, _ => DS (if cov ty sp then text else "")
       | KElem, SStr => DS (if cov ty sp then first_text (f_local sp) kids else "")
       | KElem, SStruct => DL (if cov ty sp then sel_named (f_local sp) (f_elem sp) kids else [])
-      | KElem, SAny => DL (sel_any kids)
+      | KElem, SAny => DL (sel_any ty kids)
       | KOther, _ => DS ""
       end.
   End Reader.
@@ -132,23 +133,23 @@ Section RoundTrip.
 
   (* --- what survives: the fields the reader does not cover become empty ------------------- *)
   (* an element of a heterogeneous list is read back as its own type, as another type, or not at all *)
-  Definition readable (c : dt) : bool :=
-    match elty (xmlname_of (d_ty c)) with Some t => String.eqb t (d_ty c) | None => false end.
-  Definition not_misread (c : dt) : bool :=
-    match elty (xmlname_of (d_ty c)) with Some t => String.eqb t (d_ty c) | None => true end.
+  Definition readable (ty : string) (c : dt) : bool :=
+    match elty ty (xmlname_of (d_ty c)) with Some t => String.eqb t (d_ty c) | None => false end.
+  Definition not_misread (ty : string) (c : dt) : bool :=
+    match elty ty (xmlname_of (d_ty c)) with Some t => String.eqb t (d_ty c) | None => true end.
 
   Section Eraser.
     Variable er : dt -> dt.
-    Fixpoint keep_readable (l : list dt) : list dt :=
+    Fixpoint keep_readable (ty : string) (l : list dt) : list dt :=
       match l with
       | [] => []
-      | c :: r => if readable c then er c :: keep_readable r else keep_readable r
+      | c :: r => if readable ty c then er c :: keep_readable ty r else keep_readable ty r
       end.
     Definition e_field (ty : string) (sp : fspec) (v : dt) : dt :=
       match f_kind sp, f_shape sp, v with
       | KOther, _, _ => DS ""
       | KElem, SStruct, DL l => DL (if cov ty sp then map er l else [])
-      | KElem, SAny, DL l => DL (keep_readable l)
+      | KElem, SAny, DL l => DL (keep_readable ty l)
       | _, _, DS s => DS (if cov ty sp then s else "")
       | _, _, _ => v
       end.
@@ -169,27 +170,27 @@ Section RoundTrip.
   Section Conf.
     Variable cf : dt -> bool.
     Definition is_node (c : dt) : bool := match c with DN _ _ => true | _ => false end.
-    Definition c_field (sp : fspec) (v : dt) : bool :=
+    Definition c_field (ty : string) (sp : fspec) (v : dt) : bool :=
       match f_kind sp, f_shape sp, v with
       | KElem, SStruct, DL l => forallb (fun c => String.eqb (d_ty c) (f_elem sp) && cf c) l
-      | KElem, SAny, DL l => forallb (fun c => is_node c && not_misread c && cf c) l
+      | KElem, SAny, DL l => forallb (fun c => is_node c && not_misread ty c && cf c) l
       | KElem, SStr, DS _ => true
       | KAttr, _, DS _ => true
       | KChar, _, DS _ => true
       | KOther, _, _ => true
       | _, _, _ => false
       end.
-    Fixpoint c_fields (specs : list fspec) (vals : list dt) {struct vals} : bool :=
+    Fixpoint c_fields (ty : string) (specs : list fspec) (vals : list dt) {struct vals} : bool :=
       match specs, vals with
       | [], [] => true
-      | sp :: ss, v :: vs => c_field sp v && c_fields ss vs
+      | sp :: ss, v :: vs => c_field ty sp v && c_fields ty ss vs
       | _, _ => false
       end.
   End Conf.
 
   Fixpoint conforms (d : dt) {struct d} : bool :=
     match d with
-    | DN ty vals => c_fields conforms (fields_of ty) vals
+    | DN ty vals => c_fields conforms ty (fields_of ty) vals
     | _ => false
     end.
 
@@ -201,7 +202,7 @@ Section RoundTrip.
       | KOther, _, DS s => String.eqb s ""
       | KOther, _, _ => false
       | KElem, SStruct, DL l => if cov ty sp then forallb it l else match l with [] => true | _ => false end
-      | KElem, SAny, DL l => forallb (fun c => readable c && it c) l
+      | KElem, SAny, DL l => forallb (fun c => readable ty c && it c) l
       | _, _, DS s => cov ty sp || String.eqb s ""
       | _, _, _ => true
       end.
@@ -223,26 +224,26 @@ Section RoundTrip.
          whose heterogeneous lists hold only elements of acceptable types ------------------------- *)
   Section Uses.
     Variable tys : list string.
-    Variable ok_root : string -> bool.
+    Variable ok_root : string -> string -> bool.
     Section U.
       Variable us : dt -> bool.
-      Definition u_field (sp : fspec) (v : dt) : bool :=
+      Definition u_field (ty : string) (sp : fspec) (v : dt) : bool :=
         match f_kind sp, f_shape sp, v with
         | KOther, _, DS s => String.eqb s ""
         | KOther, _, _ => false
         | KElem, SStruct, DL l => forallb us l
-        | KElem, SAny, DL l => forallb (fun c => ok_root (d_ty c) && us c) l
+        | KElem, SAny, DL l => forallb (fun c => ok_root ty (d_ty c) && us c) l
         | _, _, _ => true
         end.
-      Fixpoint u_fields (specs : list fspec) (vals : list dt) {struct vals} : bool :=
+      Fixpoint u_fields (ty : string) (specs : list fspec) (vals : list dt) {struct vals} : bool :=
         match specs, vals with
-        | sp :: ss, v :: vs => u_field sp v && u_fields ss vs
+        | sp :: ss, v :: vs => u_field ty sp v && u_fields ty ss vs
         | _, _ => true
         end.
     End U.
     Fixpoint uses_only (d : dt) {struct d} : bool :=
       match d with
-      | DN ty vals => existsb (String.eqb ty) tys && u_fields uses_only (fields_of ty) vals
+      | DN ty vals => existsb (String.eqb ty) tys && u_fields uses_only ty (fields_of ty) vals
       | _ => true
       end.
   End Uses.
@@ -304,6 +305,7 @@ Section Instance.
   Variable r_any_cases : list string.
   (* fields that the reader fills without looking at a name (the element has no content) *)
   Variable implicit : list (string * string).
+  Variable any_extra : list (string * string * string).
 
   Definition g_fields_of (ty : string) : list fspec :=
     match assoc ty w_schema with Some l => map mk_fspec l | None => [] end.
@@ -326,13 +328,20 @@ Section Instance.
     | KOther, _ => true
     end.
 
-  Definition g_elty (name : string) : option string :=
+  (* the body-level dispatch (the reader function that returns interface{}) serves every heterogeneous list;
+     [any_extra] lists (owner type, element name, element type) for names that the reader of one owner type
+     reacts to itself: the name must be among the literals of that owner's reader function *)
+  Definition g_elty (owner name : string) : option string :=
     if memb name r_any_cases then
       match filter (fun c => String.eqb (g_xmlname_of c) name && g_constructed c) w_roots with
       | c :: _ => Some c
       | [] => None
       end
-    else None.
+    else
+      match filter (fun e => String.eqb (fst (fst e)) owner && String.eqb (snd (fst e)) name) any_extra with
+      | e :: _ => if memb name (g_known owner) && g_constructed (snd e) then Some (snd e) else None
+      | [] => None
+      end.
 
   (* types reachable from the body *)
   Definition g_children (ty : string) : list string :=
